@@ -23,6 +23,80 @@ class TSetSort(S.Sort):
 
 
 def build():
+  return [build_terms(), build_eqlaw()]
+
+
+EQ_LAW = '''
+def __law__(a, b):
+  e1 = a.__eq__(b)
+  ha = a.__hash__()
+  hb = b.__hash__()
+  return (e1, ha, hb)
+'''
+
+
+def build_eqlaw():
+  """Second theory: the hand-written __eq__/__hash__ of _Eq/_And/_Or are structural (same class and equal fields) and lawful
+  (equal terms hash equally) -- this is what licenses modelling terms as algebraic data with structural equality (A-EQ) in the
+  first theory.  Proof harness over the inlined real methods; children of _And/_Or are opaque elements (induction over the term)."""
+  import collections as _c
+  from engine.core import Contract as _C
+  T = Theory('C17')
+  El = S.Uninterp('TermElem')
+  T.sorts['TermElem'] = El
+  T.bind_obj(PY, '_Eq', _c.OrderedDict(left=S.STR, right=S.STR))
+  T.bind_obj(PY, '_And', _c.OrderedDict(exprs=S.SetOf(El)))
+  T.bind_obj(PY, '_Or', _c.OrderedDict(exprs=S.SetOf(El)))
+  for q in ('_Eq.__eq__', '_Eq.__hash__', '_And.__eq__', '_And.__hash__', '_Or.__eq__', '_Or.__hash__', '_expr_set_hash'):
+    T.inline.add((PY, q))
+  T.assumptions += [
+      'second theory (eq/hash law of booleq terms): A-LIB hash(tuple) is a function of the element sequence, sorted() of a collection of ints is a function of the '
+      'multiset, hash(str) of the string; frozenset == is set equality; the children of _And/_Or are opaque elements whose own eq/hash are lawful (induction over the term)',
+  ]
+
+  SeqI = S.Seq(S.INT)
+  sorted_hashes = z3.Function('sorted_hashes_of', S.SetOf(El).z3(), SeqI.z3())
+
+  def b_sorted(ex, a, k, n):
+    """sorted(hash(e) for e in <set>): the hashes of the elements in increasing order -- a function of the SET
+    (the multiset of element hashes is determined by the set): A-LIB.  Any other use of sorted() is outside the model."""
+    import ast as _ast
+    from engine.execcomp import Gen
+    g = a[0]
+    if not isinstance(g, Gen) or len(g.node.generators) != 1 or g.node.generators[0].ifs:
+      raise NotImplementedError('sorted(%r)' % (g,))
+    gen = g.node.generators[0]
+    elt = g.node.elt
+    if not (isinstance(elt, _ast.Call) and isinstance(elt.func, _ast.Name) and elt.func.id == 'hash' and len(elt.args) == 1
+            and isinstance(elt.args[0], _ast.Name) and isinstance(gen.target, _ast.Name) and elt.args[0].id == gen.target.id):
+      raise NotImplementedError('sorted() of something other than the element hashes')
+    saved = ex.env
+    ex.env = dict(g.env)
+    try:
+      it = ex.eval(gen.iter)
+    finally:
+      ex.env = saved
+    it = ex.coerce(it, S.SetOf(El))
+    r = V(SeqI, sorted_hashes(it.t))
+    ex.assume(SeqI.len(r.t) >= 0)
+    return r
+  T.builtin_models = {'sorted': b_sorted}
+
+  def law(name, a, b, ens):
+    c = _C(PY, name, _c.OrderedDict(a=('obj', a), b=('obj', b)), ensures=ens, instance={})
+    c.harness_src = EQ_LAW
+    T.add(c)
+  same_eq = ['result[0] == (a.left == b.left and a.right == b.right)', 'implies(result[0], result[1] == result[2])']
+  same_set = ['result[0] == all((x in a.exprs) == (x in b.exprs) for x in every("TermElem"))', 'implies(result[0], result[1] == result[2])']
+  law('eqlaw[_Eq,_Eq]', '_Eq', '_Eq', same_eq)
+  law('eqlaw[_And,_And]', '_And', '_And', same_set)
+  law('eqlaw[_Or,_Or]', '_Or', '_Or', same_set)
+  for x, y in (('_And', '_Or'), ('_Or', '_And'), ('_Eq', '_And'), ('_And', '_Eq'), ('_Eq', '_Or'), ('_Or', '_Eq')):
+    law('eqlaw[%s,%s]' % (x, y), x, y, ['not result[0]'])     # terms of different classes are never equal
+  return T
+
+
+def build_terms():
   T = Theory('C17')
   TS = TSetSort()
   d = z3.Datatype('Term')
@@ -178,6 +252,10 @@ SURROUND = ['booleq.Solver.solve / implies / _get_first_approximation (consumers
             '_Eq/_And/_Or.__eq__/__hash__/_expr_set_hash (assumed: A-EQ)']
 NATIVE_IN_QUICK = True
 MUTANTS = [
+    dict(name='eq_and_ignores_class', file=PY, old="  def __eq__(self, other):\n    return self.__class__ == other.__class__ and self.exprs == other.exprs\n\n  def __repr__(self):\n    return f\"And(", new="  def __eq__(self, other):\n    return self.exprs == other.exprs\n\n  def __repr__(self):\n    return f\"And("),
+    dict(name='set_hash_unsorted', file=PY, old="  return hash(tuple(sorted(hash(e) for e in expr_set)))\n", new="  return hash(tuple(hash(e) for e in expr_set))\n"),
+    dict(name='eq_hash_ignores_right_lawful', file=PY, expect=0, old="    return hash((self.left, self.right))\n", new="    return hash(self.left)\n"),
+
     dict(name='stop_skip_swapped_in_And', file=PY,
          old="  return simplify_exprs(exprs, _And, FALSE, TRUE)\n", new="  return simplify_exprs(exprs, _And, TRUE, FALSE)\n"),
     dict(name='union_to_intersection', file=PY,
